@@ -24,4 +24,41 @@ FAMILIES = {
     },
 }
 
-PROPS = {p: f for f, d in FAMILIES.items() for p in d["props"]}
+CORE_NAMES = {
+    1: "undecodable case", 20: "local incarnation differs", 21: "leave flag differs", 22: "health score differs",
+    23: "node-count estimate differs", 24: "member records differ", 25: "suspicion-timer registration differs",
+    26: "broadcast queue contents differ", 27: "events differ", 28: "Members() differs", 29: "virtual clock differs", 30: "panic outcome differs",
+    100: "call panicked",
+    110: "C01: a stale/weaker claim changed state, fired an event or was re-gossiped",
+    111: "C01: a member's (incarnation, state) key regressed without a legitimate reclaim",
+    112: "C01: reaping removed a record that is not an old dead/left one",
+    120: "C02: running node does not list itself alive (or own record ahead of the local incarnation)",
+    121: "C02: refutation does not outrank the accusation", 122: "C02: no alive broadcast carrying the new incarnation", 123: "C02: health score not raised by the refutation",
+    130: "C07: replaying the events does not give Members()", 131: "C07: join/leave/update grammar broken", 132: "C07: callbacks overlapped",
+    140: "C08: a left member came back without a newer incarnation", 141: "C08: address of a live/suspect/recently-dead member changed",
+    142: "C08: conflicting address claim was not (only) reported to the conflict delegate", 143: "C08: name of a left/reclaimable member could not be reused from a new address",
+    144: "C08: Leave did not record the node as left", 145: "C08: departure broadcast is not the node's own leave message",
+    146: "C08: the leaver queued an alive message newer than its departure",
+    150: "C18: record with an address outside the allow-list", 151: "C18: alive from a disallowed source had an effect",
+    152: "C18: event announced an address outside the allow-list", 153: "C18: Members() lists an address outside the allow-list",
+    160: "C06: suspicion timer registered iff suspect is broken", 161: "C06: declared dead before the minimum / still suspect after the maximum timeout",
+    170: "C09: a peer's dead/suspect hearsay removed a member directly",
+}
+FAMILIES["core"] = {
+    "name": "core", "props": ["C01", "C02", "C07", "C08", "C18", "C06", "C09"], "models": "Core.v",
+    "harness": COMMON + ["zz_vf_core_test.go"], "test": "TestVfCore",
+    "n": {"quick": 1200, "thorough": 30000},
+    "codes": [(100, 109, ["C01", "C02", "C07", "C08", "C18", "C20"]), (110, 119, ["C01"]), (120, 129, ["C02"]), (130, 139, ["C07"]),
+              (140, 149, ["C08"]), (150, 159, ["C18"]), (160, 169, ["C06"]), (170, 179, ["C09"])],
+    "code_names": CORE_NAMES,
+    "assumptions": ["suspicionTimeout / remainingSuspicionTime (float64 log) enter the model as the values the real functions returned (table per case, n <= 10 nodes)",
+                    "allow-list membership of the test addresses is computed by the harness with net.IPNet.Contains, independently of Config.IPAllowed",
+                    "one operation = one nodeLock critical section; no alive delegate configured"],
+}
+
+# a property may be served by several families (run in order); the first is its primary one
+PROPS = {}
+for f, d in FAMILIES.items():
+    for p in d["props"]:
+        PROPS.setdefault(p, []).append(f)
+PRIMARY = {"C06": "susp", "C09": "stream"}
